@@ -3,6 +3,7 @@ package main
 // Stubs: the harness API and the models of everything outside lime-go.
 
 import (
+	"encoding/base64"
 	"fmt"
 	"os"
 	"go/types"
@@ -687,6 +688,14 @@ func init() {
 		},
 		"(*encoding/base64.Encoding).DecodeString": func(e *Exec, th *Thread, a []Value) Value {
 			s := a[1].(*StrV)
+			if c, isC := s.Concrete(); isC {
+				// concrete text: the real codec decides
+				b, err := base64.StdEncoding.DecodeString(c)
+				if err != nil {
+					return TupleV{&BytesV{nilb: true}, e.mkErr("illegal base64 data", nil)}
+				}
+				return TupleV{&BytesV{str: ConcStr(string(b))}, IfaceV{}}
+			}
 			// decode may fail for arbitrary strings: fresh outcome
 			ok := e.fresh("b64ok", 0)
 			if e.branch(ok) {
@@ -699,6 +708,7 @@ func init() {
 	registerJSON()
 	registerURL()
 	registerStreams()
+	registerTLS()
 	for _, f := range intrinsicsLate {
 		f()
 	}
@@ -748,6 +758,9 @@ func (e *Exec) b64(v Value, enc bool) Value {
 	switch b := v.(type) {
 	case *BytesV:
 		if b.str != nil {
+			if c, ok := b.str.Concrete(); ok && enc {
+				return ConcStr(base64.StdEncoding.EncodeToString([]byte(c)))
+			}
 			return b.str
 		}
 	case *SliceV:
@@ -781,7 +794,7 @@ func looksLikeUUID(s string) bool {
 
 // deepEqual: structural equality following pointers (reflect.DeepEqual-like).
 func (e *Exec) deepEqual(a, b Value, depth int) *Term {
-	if depth > 12 {
+	if depth > 60 {
 		panic(e.unsupported("vDeepEqual depth"))
 	}
 	switch x := a.(type) {
